@@ -2,6 +2,7 @@ import PoseVerif.Model.Spatial
 import Mathlib.Algebra.Order.Field.Basic
 import Mathlib.Tactic.Ring
 import Mathlib.Tactic.Linarith
+import Mathlib.Algebra.Order.Floor.Semiring
 /-!
 # C15 — spatial transforms obey their algebra and extents are tight
 
@@ -187,5 +188,99 @@ theorem augment_id_when_std_zero : augmentMatrix2 (K := K) none none none = [[1,
 /-- none of flip / matmul / augmentation touches confidences; for a consistent body the missing pattern is the one derived from them -/
 theorem transforms_keep_conf (isZero : K → Bool) (axis : Nat) (m : List (List K)) (b : PBody K) :
     (flipBody fieldScalar isZero axis b).conf = b.conf ∧ (matmulBody .numpy fieldScalar isZero m b).conf = b.conf := ⟨rfl, rfl⟩
+
+/-! ### `focus()` on the body: translation by the minima, header dimensions = extents rounded up -/
+
+section focusBody
+variable {K : Type} [Field K] [LinearOrder K] [IsStrictOrderedRing K] [FloorSemiring K]
+
+/-- the same scalar record with `math.ceil` -/
+noncomputable def fieldScalarC : Scalar K := { (fieldScalar (K := K)) with ceilNat := fun x => ⌈x⌉₊ }
+
+theorem mapM_some_getD' (f : Nat → Option K) : ∀ (xs : List Nat) (out : List K), xs.mapM f = some out →
+    out.length = xs.length ∧ ∀ i (hi : i < xs.length), f xs[i] = some (out.getD i 0)
+  | [], out, h => by simp at h; subst h; exact ⟨rfl, fun i hi => absurd hi (by simp)⟩
+  | x :: xs, out, h => by
+    simp only [List.mapM_cons, Option.bind_eq_bind, Option.bind_eq_some_iff, Option.pure_def, Option.some.injEq] at h
+    obtain ⟨y, hy, rest, hrest, rfl⟩ := h
+    obtain ⟨h1, h2⟩ := mapM_some_getD' f xs rest hrest
+    refine ⟨by simp [h1], ?_⟩
+    intro i hi
+    cases i with
+    | zero => simpa using hy
+    | succ j => simpa using h2 j (by simpa using hi)
+
+/-- **`focus()` on the body**: the header dimensions are the observed extents rounded up, the coordinates are translated by the per-axis minima, confidences and
+    missing pattern are untouched. (`isZero` is the exact test `x = 0`.) -/
+theorem focusBody_spec (isZero : K → Bool) (hz : ∀ x, isZero x = true ↔ x = 0) (b b' : PBody K) (w h d : Nat)
+    (hres : focusBody fieldScalarC isZero b = some (b', w, h, d)) :
+    2 ≤ numDimsBody b ∧ ∃ mins maxs : List K, mins.length = numDimsBody b ∧ maxs.length = numDimsBody b ∧
+      (∀ i, i < numDimsBody b → minOpt fieldScalar (observedCoord b i fun _ => true) = some (mins.getD i 0) ∧
+        maxOpt fieldScalar (observedCoord b i fun _ => true) = some (maxs.getD i 0)) ∧
+      w = ⌈maxs.getD 0 0 - mins.getD 0 0⌉₊ ∧ h = ⌈maxs.getD 1 0 - mins.getD 1 0⌉₊ ∧
+      d = (if numDimsBody b ≥ 3 then ⌈maxs.getD 2 0 - mins.getD 2 0⌉₊ else 0) ∧
+      b'.conf = b.conf ∧ b'.missing = b.missing ∧ b'.fps = b.fps ∧
+      b'.data = b.data.map (List.map (List.map fun pt => pt.mapIdx fun i x => x - mins.getD i 0)) := by
+  unfold focusBody at hres
+  simp only [Option.bind_eq_bind, Option.bind_eq_some_iff] at hres
+  obtain ⟨mins, hmins, maxs, hmaxs, hrest⟩ := hres
+  split at hrest
+  · cases hrest
+  · rename_i hD
+    simp only [Option.some.injEq, Prod.mk.injEq] at hrest
+    obtain ⟨hb, hw, hh, hd⟩ := hrest
+    obtain ⟨hl1, hg1⟩ := mapM_some_getD' _ _ _ hmins
+    obtain ⟨hl2, hg2⟩ := mapM_some_getD' _ _ _ hmaxs
+    simp only [List.length_range] at hl1 hl2 hg1 hg2
+    have hext : ∀ i, i < numDimsBody b → (List.zipWith fieldScalarC.sub maxs mins).getD i fieldScalarC.zero = maxs.getD i 0 - mins.getD i 0 := by
+      intro i hi
+      have h1 : i < maxs.length := by omega
+      have h2 : i < mins.length := by omega
+      simp only [List.getD_eq_getElem?_getD, List.getElem?_zipWith, List.getElem?_eq_getElem h1, List.getElem?_eq_getElem h2, Option.map₂_some_some, Option.getD_some]
+      rfl
+    refine ⟨by omega, mins, maxs, hl1, hl2, ?_, ?_, ?_, ?_, ?_, ?_, ?_, ?_⟩
+    · intro i hi
+      have h1 := hg1 i hi; have h2 := hg2 i hi
+      simp only [List.getElem_range] at h1 h2
+      exact ⟨h1, h2⟩
+    · rw [← hw]; show ⌈_⌉₊ = _; rw [hext 0 (by omega)]
+    · rw [← hh]; show ⌈_⌉₊ = _; rw [hext 1 (by omega)]
+    · rw [← hd]
+      split
+      · show ⌈_⌉₊ = _; rw [hext 2 (by omega)]
+      · rfl
+    · rw [← hb]
+    · rw [← hb]
+    · rw [← hb]
+    · rw [← hb]
+      simp only []
+      split
+      · rfl
+      · rename_i hany
+        -- every minimum is 0: translating changes nothing
+        have hall : ∀ m ∈ mins, m = 0 := by
+          intro m hm
+          have : ¬ (!isZero m) = true := fun hc => hany (List.any_eq_true.mpr ⟨m, hm, hc⟩)
+          have : isZero m = true := by simpa using this
+          exact (hz m).mp this
+        have hid : ∀ (pt : List K), (pt.mapIdx fun i x => x - mins.getD i 0) = pt := by
+          intro pt
+          apply List.ext_getElem (by simp)
+          intro i h1 h2
+          simp only [List.getElem_mapIdx]
+          have : mins.getD i 0 = 0 := by
+            simp only [List.getD_eq_getElem?_getD]
+            cases hmi : mins[i]? with
+            | none => rfl
+            | some m => exact hall m (List.mem_of_getElem? hmi)
+          rw [this, sub_zero]
+        have hfun : (fun pt : List K => pt.mapIdx fun i x => x - mins.getD i 0) = id := funext hid
+        rw [hfun]
+        simp only [List.map_id_fun, id_eq, List.map_id]
+
+/-- "rounded up": the header dimension is the least whole number not below the extent -/
+theorem ceil_extent_spec (lo hi : K) (h : lo ≤ hi) : hi - lo ≤ (⌈hi - lo⌉₊ : K) ∧ ((⌈hi - lo⌉₊ : K) < hi - lo + 1) ∧ ∀ n : Nat, hi - lo ≤ (n : K) → ⌈hi - lo⌉₊ ≤ n :=
+  ⟨Nat.le_ceil _, Nat.ceil_lt_add_one (sub_nonneg.mpr h), fun _ hn => Nat.ceil_le.mpr hn⟩
+end focusBody
 
 end PoseVerif.Props.C15
